@@ -260,6 +260,11 @@ def run(shard):
             routes.append(("deepcopy", copy.deepcopy(r1)))
         except Exception as e:
             viol("deepcopy raises", repr(e))
+        try:
+            import pickle
+            routes.append(("pickle", pickle.loads(pickle.dumps(r1))))   # not required to work; if it does, the laws must hold
+        except Exception as e:
+            H.count("skipped:pickle:" + type(e).__name__)
         for name, r in routes:
             try:
                 hash(r)
@@ -267,8 +272,9 @@ def run(shard):
                 viol("not hashable", "route %s: %s: %s" % (name, type(e).__name__, H.short(e, 200)))
         for i in range(len(routes)):
             for j in range(i, len(routes)):
+                soft = "pickle" in (routes[i][0], routes[j][0]) or "deepcopy" in (routes[i][0], routes[j][0])
                 check_pair(routes[i][1], routes[j][1], "routes %s vs %s" % (routes[i][0], routes[j][0]),
-                           expect_equal=True, encode=(i != j and j - i == 1))
+                           expect_equal=None if soft and i != j else True, encode=(i != j and j - i == 1))
         norm = []
         for name, r in routes[:3]:
             try:
